@@ -35,6 +35,7 @@ struct Dump {
     bool repaired = false;        // the open took the repair path (file was opened for writing)
     std::vector<CallRec> calls;   // one per plan.reads entry
     std::vector<CallRec> cold;    // for reads with cold=1: the same call on a fresh reader
+    std::map<int, int64_t> sig_offset;   // sample_id_offset per signal as this reader reports it (asked after the plan's reads)
     uint64_t hash() const;
 };
 
